@@ -468,14 +468,14 @@ Definition spread_match (S : tsdoc) (spread_pos : pos) (root cond : typedef) : l
       (if implements members (iname oname) then []
        else [never_matches (iname uname) (iname oname) spread_pos root cond (iname uname) (iname oname)], true)
   | TDInterface _ _ n1 _ _ _ _, TDInterface _ _ n2 _ _ _ _ =>
-      if str_eqb (iname n1) (iname n2) then ([], false)      (* "fast path": returns before check_selection_set *)
-      else
-        (if existsb (fun t => match object_impls t with
-                              | Some impls => implements impls (iname n1) && implements impls (iname n2)
-                              | None => false
-                              end) (iter_types S)
-         then []
-         else [never_matches (iname n2) (iname n2) spread_pos root cond (iname n2) (iname n1)], true)
+      (* "fast path": an interface always matches itself (the disjunction short-circuits) *)
+      (if str_eqb (iname n1) (iname n2)
+          || existsb (fun t => match object_impls t with
+                               | Some impls => implements impls (iname n1) && implements impls (iname n2)
+                               | None => false
+                               end) (iter_types S)
+       then []
+       else [never_matches (iname n2) (iname n2) spread_pos root cond (iname n2) (iname n1)], true)
   | TDInterface _ _ iname' _ _ _ _, TDUnion _ _ uname _ members _
   | TDUnion _ _ uname _ members _, TDInterface _ _ iname' _ _ _ _ =>
       let r := some_member_implements S members (iname iname') in
